@@ -15,12 +15,24 @@ import (
 // the identifier.
 func TestC01(t *testing.T) {
 	rec := ev.New(t, "C01")
-	rec.Rule("rapid-generated rings: N in 1..12 (thorough 1..32) real LocalNodes with ids from layout generators (uniform, clustered, adjacent runs, extremes 0/1/2^48-2/2^48-1, small), built by Create + serial Join through a generated existing member over the RPC-emulating proxies, settled by synchronous maintenance rounds until predecessor/successor-list/all 48 fingers match the true ring order; then FindSuccessor from EVERY member for member ids, ids±1, 0, 2^48-1 and uniform identifiers. In two cases out of three the ring then SHRINKS: a generated subset of members (never all) leaves gracefully one after the other, the ring is settled again, and the same queries - plus the departed ids and their neighbours - are asked from every remaining member (rings that end with <= 4 members keep departed nodes in the tails of their successor lists, observation O1). Oracle: sorted-membership owner(x) = first id >= x else min id over the CURRENT members; no lookup may error. A case is one ring; non-trivial: N >= 3 and the query set contains an identifier equal to a member id and one that wraps past the largest id. Distinct = distinct (id set, join order, leavers).")
+	rec.Rule("rapid-generated rings: N in 1..12 (thorough 1..32) real LocalNodes with ids from layout generators (uniform, clustered, adjacent runs, extremes 0/1/2^48-2/2^48-1, small), built by Create + serial Join through a generated existing member over the RPC-emulating proxies, settled by synchronous maintenance rounds until predecessor/successor-list/all 48 fingers match the true ring order; (one case in eight is a ring of 1..3 members into which a member with an extreme identifier - 0, 1 or 2^48-1 - joins last; a ring that is still not in ring order 300 rounds after its serial fault-free build is asked the member queries anyway and a wrong answer is reported); then FindSuccessor from EVERY member for member ids, ids±1, 0, 2^48-1 and uniform identifiers. In two cases out of three the ring then SHRINKS: a generated subset of members (never all) leaves gracefully one after the other, the ring is settled again, and the same queries - plus the departed ids and their neighbours - are asked from every remaining member (rings that end with <= 4 members keep departed nodes in the tails of their successor lists, observation O1). Oracle: sorted-membership owner(x) = first id >= x else min id over the CURRENT members; no lookup may error. A case is one ring; non-trivial: N >= 3 and the query set contains an identifier equal to a member id and one that wraps past the largest id. Distinct = distinct (id set, join order, leavers).")
 	rec.Assume("the ring has converged (checked with the C02 oracle before querying; unconverged rings are counted as inconclusive here and are C02's business)",
 		"inter-node calls go through the harness proxy that emulates RemoteNode/Server (identity-only, error mapping through rpc.WrapError+chord.ErrorMapper)")
 	maxN := ev.Pick(12, 32)
 	ev.RapidCheck(t, 100, 1600, func(t *rapid.T) {
 		ids := genLayoutIDs(1, maxN).Draw(t, "ids")
+		if rapid.IntRange(0, 7).Draw(t, "extremeJoinsLast") == 0 {
+			// a small ring into which a member with an extreme identifier (0, 1, 2^48-1) joins last
+			small := genLayoutIDs(1, 3).Draw(t, "smallIds")
+			ext := rapid.SampledFrom([]uint64{0, 0, 1, ringMax}).Draw(t, "extreme")
+			ids = nil
+			for _, v := range small {
+				if v != ext {
+					ids = append(ids, v)
+				}
+			}
+			ids = append(ids, ext)
+		}
 		vias := rapid.SliceOfN(rapid.IntRange(0, 1<<20), len(ids), len(ids)).Draw(t, "vias")
 		extra := rapid.SliceOfN(rapid.Uint64Range(0, ringMax), 8, 8).Draw(t, "queries")
 		var leavers []int
@@ -36,9 +48,34 @@ func TestC01(t *testing.T) {
 		}
 		rounds, c := r.settle(60, true, nil)
 		if c.Problem != "" {
-			rec.Inconclusive("ring-not-converged")
-			t.Logf("not converged after %d rounds: %s", rounds, c.Problem)
-			return
+			// Convergence itself is C02's business. But "once the ring has stabilized" cannot mean
+			// "never" for a ring built by serial, fault-free joins: give it 240 more rounds, and if
+			// the pointers still differ from the ring order, ask the member queries anyway - a wrong
+			// or failing answer that persists after such a quiet period is a lookup defect a user sees.
+			if _, c = r.settle(240, true, nil, false); c.Problem != "" {
+				sorted := sortedIDs(ids)
+				for _, m := range r.live() {
+					for _, q := range sorted {
+						for _, x := range []uint64{q, (q + 1) & ringMax} {
+							got, err := m.Node.FindSuccessor(x)
+							want := ownerOf(sorted, x)
+							if err == nil && got != nil && got.ID() == want {
+								continue
+							}
+							var g any
+							if got != nil {
+								g = got.ID()
+							}
+							rec.Case(true, fmt.Sprint(ids, vias[:len(ids)], "never-converged"), nil, "ring-never-converged")
+							rec.Fail(t, "wrong-owner-after-long-quiet-period", map[string]any{"ids": ids, "via": vias, "members": sorted, "start": m.ID, "key": x, "got": g, "err": fmt.Sprint(err), "want": want, "pointer_state": c.Problem},
+								"ring %v built by serial fault-free joins, 300 maintenance rounds later (pointers still not in ring order: %s): FindSuccessor(%d) from %d = %v (%v), want %d", sorted, c.Problem, x, m.ID, g, err, want)
+						}
+					}
+				}
+				rec.Inconclusive("ring-not-converged")
+				t.Logf("not converged after %d+240 rounds: %s", rounds, c.Problem)
+				return
+			}
 		}
 		allSorted := sortedIDs(ids)
 		queries := append([]uint64{0, ringMax}, extra...)
